@@ -1170,9 +1170,15 @@ class IndexHierarchy(IndexBase):
             raise ValueError('cannot use labelled container as an operand.')
 
         if operator.__name__ == 'matmul':
-            return matmul(self._blocks.values, other)
+            array = matmul(self._blocks.values, other)
         elif operator.__name__ == 'rmatmul':
-            return matmul(other, self._blocks.values)
+            array = matmul(other, self._blocks.values)
+        else:
+            array = None
+        if array is not None:
+            if array.__class__ is np.ndarray and array.ndim > 0:
+                array.flags.writeable = False
+            return array
 
         if isinstance(other, Index):
             other = other.values
